@@ -113,16 +113,16 @@ def union_report(root, out_dir, cov, prof, pids):
     if subprocess.run([prof, 'merge', '-sparse'] + pds + ['-o', upd], capture_output=True, text=True).returncode != 0:
         return
     bins = sorted(b for b in glob.glob(os.path.join(root, 'target', 'bin', '*')) if '.tmp' not in b)
-    cmd = [cov, 'export', '-format=lcov', '-instr-profile', upd, bins[0]]
-    for b in bins[1:]:
-        cmd += ['-object', b]
     srcs = [os.path.join(REPO, c, 'src') for c in ('curve25519-dalek', 'ed25519-dalek', 'x25519-dalek')]
-    e = subprocess.run(cmd + ['-sources'] + srcs, capture_output=True, text=True)
-    fns = {}      # (file, line) -> max count over instantiations
+    text = []
+    for b in bins:
+        e = subprocess.run([cov, 'export', '-format=lcov', '-instr-profile', upd, b, '-sources'] + srcs, capture_output=True, text=True)
+        text.append(e.stdout)
+    fns = {}      # (file, line) -> max count over instantiations and binaries
     cur = None
     names = {}
     lines = {}
-    for l in e.stdout.split('\n'):
+    for l in '\n'.join(text).split('\n'):
         if l.startswith('SF:'):
             cur = l[3:]
             names = {}
@@ -201,13 +201,15 @@ def main():
         shutil.rmtree(raw, ignore_errors=True)
         bins = sorted(glob.glob(os.path.join(root, 'target', 'bin', '*')))
         bins = [b for b in bins if '.tmp' not in b]
-        cmd = [cov, 'export', '-format=lcov', '-instr-profile', pd, bins[0]]
-        for b in bins[1:]:
-            cmd += ['-object', b]
         anchors = [os.path.join(REPO, f) for f in p['anchors']['files']]
-        cmd += ['-sources'] + anchors
-        e = subprocess.run(cmd, capture_output=True, text=True)
-        data = parse_lcov(e.stdout)
+        # one export per binary, united here (llvm-cov does not unite the same function across objects line by line)
+        data = {}
+        for b in bins:
+            e = subprocess.run([cov, 'export', '-format=lcov', '-instr-profile', pd, b, '-sources'] + anchors, capture_output=True, text=True)
+            for f, d in parse_lcov(e.stdout).items():
+                t = data.setdefault(f, {})
+                for k, v in d.items():
+                    t[k] = t.get(k, 0) + v
         rep = {'property': pid, 'tier': a.tier, 'check_exit': r.returncode, 'wall_s': round(wall, 1),
                'binaries': [os.path.basename(b) for b in bins], 'profiles_merged': len(files), 'files': {}}
         tot_i = tot_h = 0
